@@ -95,6 +95,21 @@ func main() {
 		default:
 			os.Exit(2)
 		}
+	case "generic":
+		// generic <seed> <rounds> <steps>
+		seed, _ := strconv.ParseUint(os.Args[2], 10, 64)
+		rounds, _ := strconv.Atoi(os.Args[3])
+		steps, _ := strconv.Atoi(os.Args[4])
+		total := 0
+		for i := 0; i < rounds; i++ {
+			n, err := genericArmAll(seed*1000+uint64(i), steps)
+			total += n
+			if err != nil {
+				fmt.Println("GENERIC-ARM FAILURE:", err)
+				os.Exit(3)
+			}
+		}
+		fmt.Printf("generic ok steps=%d arities=1..12\n", total)
 	case "puregen":
 		seed, _ := strconv.ParseUint(os.Args[2], 10, 64)
 		n, _ := strconv.Atoi(os.Args[3])
